@@ -42,6 +42,7 @@ def schema_from(sj):
 DEFAULTS_SCHEMA = '''type Query { x: Int }
 input Recipient { email: String! n: Int }
 input Message { to: Recipient! text: String urgent: Boolean }
+input Awkward { type: Int camelCase: String loop: Boolean }
 '''
 
 
